@@ -789,7 +789,7 @@ func replayPair(raw json.RawMessage) vdrv.Verdict {
 
 func runPair(t *testing.T) {
 	H.Rule("pair", "rapid: projgen bundles (ESM, 8–40 files, splitting on 2/3 of the cases, dynamic-import cycles, file/copy/dataurl assets, CSS url()/@import, legal comments, input source maps, placeholder-looking strings) with every name template containing [hash]; B2 = B1 with exactly one edit: code / plain comment / legal comment / asset bytes / CSS / CSS comment / input source map of one file, or one option (public path, entry/chunk/asset template, source map mode, legal comments mode). Oracles: (1) a path emitted by both builds carries identical bytes; (2) for input edits, chunks matched across builds by masked name + contained markers: changed bytes ⇒ new path for the chunk and for every transitive referrer; (3) every import / import() / url() / asset path string / sourceMappingURL / legal link parsed from the outputs resolves (relative to the referrer or through PublicPath) to a file of the same build; (4) two runs of B1 are byte-identical and no token [A-Za-z0-9_-]{16}[AC][0-9]{8} appears that is not input text, while such tokens in the inputs survive verbatim. Non-trivial = the edit changed some output, ≥3 outputs and ≥1 resolved reference.")
-	H.SetupRapid("pair", H.N(640, 30000))
+	H.SetupRapid("pair", H.N(2400, 30000))
 	rapid.Check(t, func(rt *rapid.T) {
 		c := genCase(rt)
 		kb, _ := json.Marshal(c)
